@@ -798,6 +798,8 @@ def api_returns(chk, units, baseline_path=None, baseline=None):
                 continue
             if d.get("access") not in (None, "public") or d.get("implicit") or d.get("lambdaop"):
                 continue
+            if "::internal::" in d["pqn"]:
+                continue   # implementation helpers are not the library's API (R-LIFE.ret still covers them)
             key = "%s|%d" % (d["pqn"], len(d["params"]))
             was = base.get(key)
             if was is None:
